@@ -262,7 +262,7 @@ func (d *driver) ops(w *world.World, depth int, path []string) []engine.Op {
 
 func bounds(tier string) int {
 	if tier == "thorough" {
-		return 4
+		return 5
 	}
 	return 3
 }
